@@ -15,7 +15,7 @@ FUNCTIONS = ["xgcm.grid_ufunc:_reattach_coords", "xgcm.padding:_strip_all_coords
 BOUNDS = {
     "quick": {"dataset": "axes X (center,left,outer,inner) and Y (center,left), extra dim t; non-dimension coordinates 0-D, 1-D on each X position, 2-D (y,x-left), 3-D, all with symbolic values and attributes; with and without dimension coordinates",
               "operations": "diff/interp/min/max on padded (center->left, left->center, center->outer) and unpadded (outer->center, center->inner) paths, cumsum (4 shifts), keep_coords True/False; the same through metric_weighted calls, calls over two axes, apply_as_grid_ufunc and interp_like with a template carrying other labels (N=2)",
-              "inputs": "carrying the dataset's coordinates, none, or other labels (symbolic non-index coordinates, shifted index labels)", "N": [2, 3]},
+              "face-connected": "2 faces, axis-swapping link on the left / on the right / same-axis link; scalar and vector diff/interp, cumsum; keep_coords T/F; with and without dimension coordinates", "inputs": "carrying the dataset's coordinates, none, or other labels (symbolic non-index coordinates, shifted index labels)", "N": [2, 3]},
     "thorough": {"N": [2, 3, 4], "operations": "variants also at N=3"},
 }
 OUTSIDE = ["symbolic index (dimension-coordinate) labels: pandas indexes hash their labels", "coordinates of the input that are not coordinates of the grid dataset (statement is silent)"]
@@ -42,7 +42,81 @@ def cases(tier):
                 for inp in ("dataset", "none"):
                     for variant in ("mw", "axes2", "ufunc", "interp_like"):
                         out.append(dict(N=N, dimcoords=dimcoords, frm=frm, to=to, inp=inp, variant=variant))
+    # face-connected grids: scalar and vector inputs across same-axis and axis-swapping links on either side
+    for tb in ("swap-on-left", "swap-on-right", "same-axis"):
+        for dimcoords in ("all", "none"):
+            out.append(dict(variant="faces", table=tb, dimcoords=dimcoords, N=2))
     return out
+
+
+FACE_TABLES = {
+    "swap-on-left": {0: {"Y": ((1, "X", False), None)}, 1: {"X": (None, (0, "Y", False))}},
+    "swap-on-right": {0: {"X": (None, (1, "Y", False))}, 1: {"Y": ((0, "X", False), None)}},
+    "same-axis": {0: {"X": (None, (1, "X", False))}, 1: {"X": ((0, "X", False), None)}},
+}
+
+
+def case_faces(W, cfg):
+    """labels and name of results on a face-connected grid: the halo comes from another face (and, for vectors, from the
+    partner component), the labels and the name never do"""
+    import xgcm
+    N = cfg["N"]
+    sizes = {"face": 2, "xc": N, "xg": N, "yc": N, "yg": N}
+    coords = {}
+    if cfg["dimcoords"] == "all":
+        for d, n in sizes.items():
+            coords[d] = xr.DataArray(np.arange(n) * 1.0 + (0.5 if d in ("xc", "yc") else 0.0), dims=[d], attrs={"which": d})
+    ds = xr.Dataset(coords=coords)
+    nd = {"lon_c": ("face", "yc", "xc"), "lon_u": ("face", "yc", "xg"), "lon_v": ("face", "yg", "xc"), "tile": ("face",)}
+    vals = {}
+    for name, dims in nd.items():
+        vals[name] = W.data(name, tuple(sizes[d] for d in dims))
+        ds = ds.assign_coords({name: xr.DataArray(vals[name], dims=dims, attrs={"long_name": name})})
+    for d in sizes:
+        if d not in ds.dims:
+            ds["_len_" + d] = ((d,), np.zeros(sizes[d]))
+    with warnings.catch_warnings():
+        warnings.simplefilter("ignore")
+        grid = xgcm.Grid(ds, coords={"X": {"center": "xc", "left": "xg"}, "Y": {"center": "yc", "left": "yg"}}, periodic=False, boundary="fill", fill_value=0.0,
+                         face_connections={"face": FACE_TABLES[cfg["table"]]}, autoparse_metadata=False)
+    u = xr.DataArray(W.data("u", (2, N, N)), dims=["face", "yc", "xg"], name="uvel")
+    v = xr.DataArray(W.data("v", (2, N, N)), dims=["face", "yg", "xc"], name="vvel")
+    c = xr.DataArray(W.data("c", (2, N, N)), dims=["face", "yc", "xc"], name="tracer")
+    calls = []
+    for op in ("diff", "interp"):
+        calls.append(("%s:vector-X" % op, "uvel", ("face", "yc", "xc"), lambda keep, op=op: getattr(grid, op)({"X": u}, "X", to="center", other_component={"Y": v}, keep_coords=keep)))
+        calls.append(("%s:vector-Y" % op, "vvel", ("face", "yc", "xc"), lambda keep, op=op: getattr(grid, op)({"Y": v}, "Y", to="center", other_component={"X": u}, keep_coords=keep)))
+        calls.append(("%s:scalar-X" % op, "tracer", ("face", "yc", "xg"), lambda keep, op=op: getattr(grid, op)(c, "X", to="left", keep_coords=keep)))
+        calls.append(("%s:scalar-Y" % op, "tracer", ("face", "yg", "xc"), lambda keep, op=op: getattr(grid, op)(c, "Y", to="left", keep_coords=keep)))
+    calls.append(("cumsum:scalar-X", "tracer", ("face", "yc", "xg"), lambda keep: grid.cumsum(c, "X", to="left", boundary="fill", fill_value=0.0, keep_coords=keep)))
+    for lab0, name, rdims, fn in calls:
+        for keep in (True, False):
+            lab = "faces[%s]:%s:keep=%s" % (cfg["table"], lab0, keep)
+            try:
+                with warnings.catch_warnings():
+                    warnings.simplefilter("ignore")
+                    r = fn(keep)
+            except Exception as e:  # noqa
+                if lab0.startswith("cumsum"):
+                    # cumsum trims before it pads, so faces are not square when the halo is rotated in: whether that is
+                    # answered at all is no labelling question (and outside C09's quantifier); nothing to label
+                    continue
+                W.fail("raises:%s:%s" % (type(e).__name__, lab0), "%s: %s" % (lab, str(e)[:200]))
+                continue
+            W.require("dims", tuple(r.dims) == rdims, "%s: %s" % (lab, r.dims))
+            W.require("name-kept", r.name == name, "%s: name %r, input's name %r" % (lab, r.name, name))
+            for d in rdims:
+                if d in ds.coords:
+                    ok = d in r.coords and list(r[d].values) == list(ds[d].values) and dict(r[d].attrs) == dict(ds[d].attrs)
+                    W.require("new-dim-coordinate-from-grid" if d in ("xc", "xg", "yc", "yg") else "untouched-dim-coordinate-kept", ok, "%s: dim %s -> %s" % (lab, d, r.coords.get(d)))
+                else:
+                    W.require("no-invented-coordinate", d not in r.coords, "%s: coordinate %s appeared" % (lab, d))
+            for cname, cd in nd.items():
+                should = set(cd) <= set(rdims) and keep
+                W.require("other-grid-coordinates-iff-fit-and-keep_coords", (cname in r.coords) == should, "%s: coordinate %s present=%s keep_coords=%s" % (lab, cname, cname in r.coords, keep))
+                if cname in r.coords and should:
+                    W.equal("attached-coordinate-values", r[cname].transpose(*cd).data, vals[cname], detail="%s %s" % (lab, cname), record=False)
+            W.record(lab, list(r.transpose(*rdims).data.ravel()))
 
 
 UFUNC_WIDTHS = {("center", "left"): (1, 0), ("left", "center"): (0, 1), ("center", "outer"): (1, 1), ("outer", "center"): (0, 0),
@@ -80,6 +154,8 @@ def build(W, N, dimcoords, only_on=None, metrics=False):
 
 def case(W, cfg):
     import xgcm
+    if cfg.get("variant") == "faces":
+        return case_faces(W, cfg)
     N, frm, to = cfg["N"], cfg["frm"], cfg["to"]
     variant = cfg.get("variant", "plain")
     ds, sizes, nd, vals = build(W, N, cfg["dimcoords"], cfg.get("only_on"), metrics=(variant == "mw"))
